@@ -403,7 +403,12 @@ impl Ctx {
         };
         coverage.insert("verdict".into(), json!(verdict));
         for (k, v) in &g.extra {
-            coverage.insert(k.clone(), v.clone());
+            // extras never override the keys the evidence schema defines
+            if coverage.contains_key(k) {
+                coverage.insert(format!("{k}_detail"), v.clone());
+            } else {
+                coverage.insert(k.clone(), v.clone());
+            }
         }
         let doc = json!({
             "property_id": self.id,
